@@ -45,7 +45,11 @@ ALL_TRANSITIONS = _keys("Barrier", {
 UNREACHABLE_HERE = _keys("Barrier", {"acq0": ["waiting", "woken"], "acq1": ["waiting", "woken"], "rel": ["reW", "reR"]})
 
 
-def scenario_params(rng):
+def scenario_params(rng, large=False):
+    """One program.  Dimensions: barrier size (1..6, and with large=True also > 129: more than one wake-up chunk of any
+    implementation that wakes in bounded batches), surplus callers, rounds, caller kinds (ULT / external thread /
+    tasklets at random arrival positions), who re-initialises and when (main after the join, or the first caller that
+    returns from the last round while the others are still leaving)."""
     if rng.below(4) == 0:
         # xstream barrier: 2-3 streams; either every participant counts, or num_waiters = 1 (the guard)
         nes = 2 + rng.below(2)
@@ -62,7 +66,13 @@ def scenario_params(rng):
         ph += [nw, extra, 1 + rng.below(5)]
     if rng.below(6) == 0:
         ph[0] = 1                      # num_waiters = 1: every call is a round of its own
-    return ["bar", nes] + ph + [10 * rng.below(7), rng.below(3)]
+    ext = 10 * rng.below(7)
+    if large and rng.below(4) == 0:
+        # a large barrier on 2-3 streams, few rounds, fast re-entry; (almost) all waiters are ULTs
+        nes = 2 + rng.below(2)
+        ph[0:3] = [130 + rng.below(11), 0, 2 + rng.below(2)]
+        ext = [0, 0, 2, 5][rng.below(4)]
+    return ["bar", nes] + ph + [ext, rng.below(3), rng.below(2)]
 
 
 def validate(lg, params):
@@ -76,7 +86,10 @@ def run(res, tier, broken):
     res.add_cov(t1_functions=n, t1_broken=len(tb))
     for b in tb:
         broken.append({"kind": "T1-skeleton", **b})
-    vs.campaign(res, broken, tier, "C08", "sc_barrier", SOURCES, scenario_params, validate, sizes=SIZES)
+    # the large-barrier programs belong to the thorough tier and to the failing-input search (`broken` is filled by
+    # check.py / T1 / a T3 rejection before the search sweep starts)
+    vs.campaign(res, broken, tier, "C08", "sc_barrier", SOURCES,
+                lambda rng: scenario_params(rng, large=(tier == "thorough" or bool(broken))), validate, sizes=SIZES)
     seen = set(res.cov.get("model_transitions", []))
     res.add_cov(model_transitions_total=len(ALL_TRANSITIONS),
                 model_transitions_uncovered=sorted(ALL_TRANSITIONS - seen - UNREACHABLE_HERE),
